@@ -174,6 +174,9 @@ func norm(r M) M {
 		if mhas(r, "ref") {
 			S("ref")
 		}
+	case "Receipt":
+		I("rid")
+		S("receipt", "hash", "sig")
 	case "Ping", "Leave", "Debug":
 		I("rid")
 	case "SignedLatency":
